@@ -112,6 +112,13 @@ theorem recovery_open_is_stable {C : Type} (join : C → C → C) (bot : C) (L :
   · exact h
   · rw [h, L.laws.bot_right]
 
+/-- what "acknowledged" means in the source: `Commit` returns the error of the node flush and of
+    the version PUT unconditionally (an acknowledged commit is one whose requests up to and
+    including the version PUT were all served — the hypothesis of `acked_is_new`), in this order -/
+theorem ack_facts :
+    F.commitChecksErrors = true ∧ F.commitOrder = ["flushNodes", "putRoot", "retireParents"] := by
+  decide
+
 /-- non-vacuity on a concrete lattice (sets of naturals as sorted duplicate-free lists are
     awkward; `Nat` with `max` is a join-semilattice with bottom 0) -/
 example : JoinLaws (C := Nat) max 0 :=
